@@ -1,6 +1,7 @@
 package main
 
 import (
+	"bytes"
 	"fmt"
 	"math/big"
 	"sort"
@@ -62,6 +63,36 @@ func (s *Sys) holdingsOf(who int, book *secretBook) holdings {
 	p := s.ps[who]
 	sc := scanGraph(p.c)
 	h := holdings{where: map[string][]string{}}
+	// copies: every place that held a secret at the previous scan and is no longer part of the conversation must
+	// have been zeroed (this follows copies made by the library itself, not only the buffers the random source filled)
+	for _, hs := range p.held {
+		if hs.reg.ptr == 0 || sc.holds(hs.reg.ptr) {
+			continue
+		}
+		if t := bytes.TrimLeft(hs.secret, "\x00"); bytes.Contains(hs.reg.current(), t) {
+			where := hs.reg.path
+			if strings.HasPrefix(where, ".smp.") {
+				where = ".smp" // one finding for the whole SMP state, whichever exponent is looked at
+			}
+			d := hs.what + "@" + where
+			dup := false
+			for _, x := range h.dropped {
+				dup = dup || x == d
+			}
+			if !dup {
+				h.dropped = append(h.dropped, d)
+			}
+		}
+	}
+	p.held = nil
+	hold := func(what string, secret []byte) {
+		for _, r := range sc.findRegions(secret) {
+			if what == "r" && strings.HasSuffix(r.path, "revealSigMsg") {
+				continue // the Reveal Signature message that was sent: r is public from then on
+			}
+			p.held = append(p.held, heldSecret{r, secret, what})
+		}
+	}
 	seenVal := map[string]bool{}
 	seenPtr := map[uintptr]bool{}
 	for i, d := range p.rnd.draws {
@@ -78,6 +109,7 @@ func (s *Sys) holdingsOf(who int, book *secretBook) holdings {
 		if !seenVal[string(d.val)] {
 			seenVal[string(d.val)] = true
 			if paths := sc.find(d.val); len(paths) > 0 {
+				hold(kind, d.val)
 				h.where[fmt.Sprintf("%s#%d", kind, i)] = paths
 				switch kind {
 				case "exp":
@@ -108,6 +140,9 @@ func (s *Sys) holdingsOf(who int, book *secretBook) holdings {
 					if paths := sc.find(v); len(paths) > 0 {
 						h.derived = append(h.derived, name)
 						h.where[name] = paths
+						if !strings.HasSuffix(name, "MAC") { // MAC keys are published once retired
+							hold(name, v)
+						}
 					}
 				}
 			}
@@ -306,6 +341,23 @@ func c08History(c *Ctx, steps int) *Sys {
 
 func genC08(c *Ctx) {
 	c.Rep.Rule = "histories of sends, deliveries, (refresh) key exchanges left unfinished or completed, losses, End, peer disconnect, SMP, error messages and clock ticks; after every call the object graph reachable from each *Conversation (pointers, slices and big.Int limb arrays to their full capacity, maps, interfaces) is searched for every value the party's random source handed out, for the session and AKE keys an independent derivation gives for the recent exponents, and for every text given to Send; the projection (number of DH private keys, r, AKE keys, SMP state, retained texts) is compared with the Coq machine as a scenario step; oracles: at most current+previous(+exchange in progress) private keys, no AKE ephemerals without an exchange in progress, nothing at all when not encrypted and no exchange in progress, every buffer that received a secret is zeroed once it is unreachable"
+	{ // corpus: the recorded known finding (SMP exponents dropped without zeroing) runs first
+		pols := []int{polV3, polV3}
+		s := newSys(pols, 777)
+		s.keepSecrets()
+		book := &secretBook{}
+		if s.Handshake(1, 2) {
+			s.StartSMP(1, "", []byte("corpus"))
+			s.Probe(c, 1, book)
+			s.Pump(1, 2, 2)
+			s.Probe(c, 2, book)
+			s.End(1)
+			s.Probe(c, 1, book)
+			s.Pump(1, 2, 4)
+			s.Probe(c, 2, book)
+			c.AddScenario(s, pols)
+		}
+	}
 	n, steps := 30, 40
 	if c.Thorough() {
 		n, steps = 300, 90
